@@ -103,7 +103,7 @@ public:
   }
   void generate(GenCtx& g, Program& p) override {
     p.config = (int)g.rng.below(ncfg);
-    int nt = g.rng.range(2, g.tier ? 4 : 3);
+    int nt = g.rng.range(2, (g.tier || g.rng.chance(20)) ? 4 : 3);
     int maxops = g.tier ? 8 : 6;
     int prefill = (int)g.rng.below(5); // pushed by the setup thread, may cross a node boundary
     p.params = {prefill};
